@@ -40,3 +40,28 @@ Definition geom_case_ok (syms : list (tf NumF)) (s : site NumF) (c : cell NumF) 
    all2 tf_same (map (to_cartesian_isometry NumF c) rel_m) cart,
    fsame (shape_radius NumF fmin_ sh) radius,
    opt_same (packed_score NumF st) score).
+
+(* ------------------------------------------------------------------ *)
+(* the optimiser model on a recorded run at zero temperature (exp is only ever applied to -inf, +inf or NaN) *)
+From PV Require Import model.Optimiser.
+
+Definition fexp0 (x : float) : float :=
+  if PrimFloat.eqb x neg_infinity then 0%float
+  else if PrimFloat.eqb x infinity then infinity
+  else nan.
+Definition fpow0 (x y : float) : float := nan.   (* not reached: cases without kt_finish *)
+
+Definition opt_case_ok (b : builder NumF) (ps : list float) (hs : list (handle NumF)) (draws : list (draw NumF))
+    (recorded : list (option float * list float)) (final : list float) : bool :=
+  (* the oracle answers with the recorded score only when asked about the recorded parameter vector *)
+  let oracle (k : N) (v : list float) : option float :=
+    match nth_error recorded (N.to_nat k) with
+    | Some (sc, vec) => if all2 fsame v vec then sc else None
+    | None => None
+    end in
+  match optimise NumF fexp0 oracle (build NumF fpow0 b) ps hs draws with
+  | Returned _ st =>
+      all2 fsame (params NumF st) final
+      && N.eqb (N.of_nat (List.length recorded)) (calls NumF st + (if converged NumF st then 0 else 1))%N
+  | _ => false
+  end.
